@@ -117,6 +117,24 @@ def build_case(r, nrefs, nfiles, mode):
             "slots": slots, "file_order": files, "nrefs": nrefs}
 
 
+def corpus_cases(pid):
+    """minimised regression cases of corpus/<pid> (full case dictionaries), run before the generated ones"""
+    import os
+    d = os.path.join(core.VERIF, "corpus", pid)
+    out = []
+    for f in sorted(os.listdir(d)) if os.path.isdir(d) else []:
+        if f.endswith(".json"):
+            c = json.load(open(os.path.join(d, f)))
+            if "layout" not in c:
+                continue
+            c["slots"] = [tuple(x) for x in c["slots"]]
+            c["kind"] = "corpus"
+            if c.get("query"):
+                set_query(c)
+            out.append(c)
+    return out
+
+
 def file_order_from_log(case, log):
     """Order in which the resolver visits the models, read off the first provider calls."""
     order = []
